@@ -33,6 +33,7 @@
 #include <netinet/tcp.h>
 #include <arpa/inet.h>
 #include <poll.h>
+#include <fcntl.h>
 #include <unistd.h>
 #include <dlfcn.h>
 #include <errno.h>
@@ -244,18 +245,36 @@ struct server {
 	{
 		if(srv.get()) { if(!dead) srv->shutdown(); if(thr.get()) thr->join(); thr.reset(); srv.reset(); }
 	}
+	// connect with a 2 s limit: a service whose event loop hangs stops accepting, a blocking connect() to its full
+	// backlog would wait forever
+	static bool timed_connect(int fd,struct sockaddr *sa,socklen_t len)
+	{
+		int fl=fcntl(fd,F_GETFL,0);
+		fcntl(fd,F_SETFL,fl|O_NONBLOCK);
+		int r=::connect(fd,sa,len);
+		if(r<0 && errno==EINPROGRESS) {
+			struct pollfd p; p.fd=fd; p.events=POLLOUT; p.revents=0;
+			if(::poll(&p,1,2000)<=0) return false;
+			int err=0; socklen_t el=sizeof(err);
+			if(getsockopt(fd,SOL_SOCKET,SO_ERROR,&err,&el)<0 || err!=0) return false;
+			r=0;
+		}
+		if(r<0) return false;
+		fcntl(fd,F_SETFL,fl);
+		return true;
+	}
 	int connect_fd()
 	{
 		if(api=="http" || api=="bk") {
 			int fd=::socket(AF_INET,SOCK_STREAM,0);
 			struct sockaddr_in a; memset(&a,0,sizeof(a)); a.sin_family=AF_INET; a.sin_addr.s_addr=htonl(INADDR_LOOPBACK); a.sin_port=htons(port);
-			if(::connect(fd,(struct sockaddr*)&a,sizeof(a))<0) { ::close(fd); return -1; }
+			if(!timed_connect(fd,(struct sockaddr*)&a,sizeof(a))) { ::close(fd); return -1; }
 			int one=1; setsockopt(fd,IPPROTO_TCP,TCP_NODELAY,&one,sizeof(one));
 			return fd;
 		}
 		int fd=::socket(AF_UNIX,SOCK_STREAM,0);
 		struct sockaddr_un u; memset(&u,0,sizeof(u)); u.sun_family=AF_UNIX; strncpy(u.sun_path,sock.c_str(),sizeof(u.sun_path)-1);
-		if(::connect(fd,(struct sockaddr*)&u,sizeof(u))<0) { ::close(fd); return -1; }
+		if(!timed_connect(fd,(struct sockaddr*)&u,sizeof(u))) { ::close(fd); return -1; }
 		return fd;
 	}
 };
